@@ -93,7 +93,7 @@ def make_map(kind, seed, shape, amp=1.0):
     return np.ascontiguousarray(z * amp, dtype=np.float64)
 
 
-WINDOWS = ['auto', 'welch', 'hann', 'hanning', 'Welch', 'user:ones', 'user:const', 'user:random', 'user:hann']
+WINDOWS = ['auto', 'welch', 'hann', 'hanning', 'Welch', 'user:ones', 'user:const', 'user:random', 'user:hann', 'user:bool', 'user:uint8']
 
 
 def window_arg(win, seed, shape):
@@ -111,6 +111,11 @@ def window_arg(win, seed, shape):
         return U.rng_of(seed, 4).uniform(0.2, 1.0, shape)
     if k == 'hann':
         return np.outer(np.hanning(shape[0]), np.hanning(shape[1]))
+    if k in ('bool', 'uint8'):
+        # a 0/1 aperture mask used as the window (what prysm.geometry.circle returns is a bool array)
+        m = U.rng_of(seed, 4).uniform(0, 1, shape) > 0.3
+        m.flat[0] = True
+        return m if k == 'bool' else m.astype(np.uint8)
     raise ValueError(win)
 
 
@@ -119,7 +124,7 @@ def window_array(ctx, win, warg, h, dx):
     public make_window() returns (checked to be a finite real array of the map's shape with positive power)."""
     from prysm.interferogram import make_window
     if isinstance(warg, np.ndarray):
-        return warg
+        return warg.astype(np.float64) if warg.dtype.kind in 'bui' else warg     # the oracle works in float64
     w = np.asarray(ctx.call(make_window, h, dx, warg))
     U.check_shape(w, h.shape, 'make_window:' + win, 'window')
     ctx.require(bool(np.all(np.isfinite(w))) and float((w * w).sum()) > 0, 'make_window:' + win, 'window not finite / zero power for shape %s' % (h.shape,))
